@@ -80,6 +80,83 @@ static bool liberal_valid(const C *t, unsigned n) {
     lskip(t, n, p);
     return p == n;
 }
+// STRICT RFC 8259 recogniser (returns 1 valid, 0 invalid, 2 "do not know": numerals whose range the library may legitimately
+// reject, i.e. an exponent of more than two digits or more than 15 significant digits).  "Strictly valid but Parse returns
+// Undefined" is a definite completeness violation.
+static int sval(const C *t, unsigned n, unsigned &p, unsigned depth);
+static bool shex(C c) { return (c >= C('0') && c <= C('9')) || (c >= C('a') && c <= C('f')) || (c >= C('A') && c <= C('F')); }
+static int sstr(const C *t, unsigned n, unsigned &p) {
+    ++p;
+    while (p < n) {
+        C c = t[p];
+        if (c == C('"')) { ++p; return 1; }
+        if (c >= 0 && unsigned(c) < 0x20u) return 0;
+        if (c == C('\\')) {
+            if (p + 1 >= n) return 0;
+            C e = t[p + 1];
+            if (e == C('u')) { if (p + 5 >= n) return 0; for (unsigned k = 2; k < 6; k++) if (!shex(t[p + k])) return 0; p += 6; continue; }
+            if (e == C('"') || e == C('\\') || e == C('/') || e == C('b') || e == C('f') || e == C('n') || e == C('r') || e == C('t')) { p += 2; continue; }
+            return 0;
+        }
+        ++p;
+    }
+    return 0;
+}
+static int snum(const C *t, unsigned n, unsigned &p) {
+    unsigned digits = 0;
+    if (p < n && t[p] == C('-')) ++p;
+    if (p >= n) return 0;
+    if (t[p] == C('0')) { ++p; }
+    else if (t[p] >= C('1') && t[p] <= C('9')) { while (p < n && t[p] >= C('0') && t[p] <= C('9')) { ++p; ++digits; } }
+    else return 0;
+    if (p < n && t[p] == C('.')) { ++p; unsigned s = p; while (p < n && t[p] >= C('0') && t[p] <= C('9')) { ++p; ++digits; } if (p == s) return 0; }
+    unsigned ed = 0;
+    if (p < n && (t[p] == C('e') || t[p] == C('E'))) { ++p; if (p < n && (t[p] == C('+') || t[p] == C('-'))) ++p; unsigned s = p; while (p < n && t[p] >= C('0') && t[p] <= C('9')) { ++p; ++ed; } if (p == s) return 0; }
+    return (ed > 2 || digits > 15) ? 2 : 1;
+}
+static bool slit(const C *t, unsigned n, unsigned &p, const char *w) { unsigned k = 0; while (w[k]) { if (p + k >= n || t[p + k] != C(w[k])) return false; ++k; } p += k; return true; }
+static int sval(const C *t, unsigned n, unsigned &p, unsigned depth) {
+    if (depth > 40 || p >= n) return 0;
+    int unk = 1;
+    if (t[p] == C('[')) {
+        ++p; lskip(t, n, p);
+        if (p < n && t[p] == C(']')) { ++p; return 1; }
+        while (true) {
+            int r = sval(t, n, p, depth + 1); if (r == 0) return 0; if (r == 2) unk = 2;
+            lskip(t, n, p);
+            if (p < n && t[p] == C(',')) { ++p; lskip(t, n, p); continue; }
+            if (p < n && t[p] == C(']')) { ++p; return unk; }
+            return 0;
+        }
+    }
+    if (t[p] == C('{')) {
+        ++p; lskip(t, n, p);
+        if (p < n && t[p] == C('}')) { ++p; return 1; }
+        while (true) {
+            if (!(p < n && t[p] == C('"'))) return 0;
+            if (sstr(t, n, p) == 0) return 0;
+            lskip(t, n, p);
+            if (!(p < n && t[p] == C(':'))) return 0;
+            ++p; lskip(t, n, p);
+            int r = sval(t, n, p, depth + 1); if (r == 0) return 0; if (r == 2) unk = 2;
+            lskip(t, n, p);
+            if (p < n && t[p] == C(',')) { ++p; lskip(t, n, p); continue; }
+            if (p < n && t[p] == C('}')) { ++p; return unk; }
+            return 0;
+        }
+    }
+    if (t[p] == C('"')) return sstr(t, n, p);
+    if (t[p] == C('t')) return slit(t, n, p, "true") ? 1 : 0;
+    if (t[p] == C('f')) return slit(t, n, p, "false") ? 1 : 0;
+    if (t[p] == C('n')) return slit(t, n, p, "null") ? 1 : 0;
+    return snum(t, n, p);
+}
+static int strict_valid(const C *t, unsigned n) {
+    unsigned p = 0; lskip(t, n, p);
+    int r = sval(t, n, p, 0); if (r == 0) return 0;
+    lskip(t, n, p);
+    return (p == n) ? r : 0;
+}
 static void run_ctx(const C *b, unsigned off, const char *pre, const char *post) {
     unsigned np = 0; while (pre[np]) ++np; unsigned nq = 0; while (post[nq]) ++nq;
     unsigned n = np + (L - off) + nq;
@@ -91,6 +168,7 @@ static void run_ctx(const C *b, unsigned off, const char *pre, const char *post)
     Value<C> v = JSON::Parse(e, SizeT(n));
     bool ref = liberal_valid(e, n);
     vf_assert(ref || v.IsUndefined(), 77);       // structurally invalid text must be rejected
+    vf_assert(strict_valid(e, n) != 1 || !v.IsUndefined(), 78);   // a strictly RFC 8259-valid text must be accepted
     vf_free(e);
 }
 static void run_all(const C *b, unsigned off, const char *open) {
